@@ -55,8 +55,18 @@ def le_n(v, n):
     return [SInt((v / (1 << (8 * j))) % 256) for j in range(n)]
 
 
+def pre23_portable(cfg):
+    return (2, 0) <= tuple(cfg["_version"]) < (2, 3) and not cfg["_native"]
+
+
+def compilation_ts_ok(magic_int):
+    return True
+
+
 def writer_post(code_obj, compilation_ts, filesize, _engine):
     cfg = _engine.entry_cfg
+    if pre23_portable(cfg):
+        return [("a portable 2.0-2.2 code object (16-bit counters) must be refused", False)]
     files = getattr(_engine, "opened", None) or []
     if len(files) != 1:
         return [("one-file-opened", False)]
@@ -104,7 +114,11 @@ def _native_writer(config, inputs):
         try:
             L.write_bytecode_file(p, co if config["_native"] else object(), config["_magic"], ts, size)
         except Exception as e:
+            if isinstance(e, TypeError) and pre23_portable(config):
+                return {"violated": [], "result": "refused (TypeError)"}
             return {"violated": ["raises:%s" % type(e).__name__], "exception": repr(e)}
+        if pre23_portable(config):
+            return {"violated": ["a portable 2.0-2.2 code object was written instead of refused"], "result": "written"}
         data = open(p, "rb").read()
     finally:
         L.marshal.dumps, L.xdis.marsh.dumps = saved
@@ -125,6 +139,7 @@ EXT_XDIS_DUMPS.external_result = lambda eng, args, kwargs: Opaque("dumps", bytes
 contract("xdis.load:write_bytecode_file", configs=writer_configs,
          params={"code_obj": CodeArg(), "compilation_ts": Int(lo=1), "filesize": Int()},
          requires=lambda compilation_ts, filesize: And(compilation_ts < (1 << 32), filesize >= 0, filesize < (1 << 32)),
+         raises={TypeError: lambda magic_int, code_obj: (2, 0) <= tuple(H.FINAL_MAGICS[magic_int]) < (2, 3) and getattr(code_obj, "pytype", None) is not types.CodeType},
          ensures=writer_post,
          examples={"compilation_ts": lambda cfg, rng, n: [1, 255, 256, 65536, 2 ** 31, 2 ** 32 - 1, 1234567890],
                    "filesize": lambda cfg, rng, n: [0, 1, 255, 256, 65535, 2 ** 31, 2 ** 32 - 1]},
